@@ -29,7 +29,7 @@ def run(c):
     events, owner = [], []
     for s in scen:
         if s["sc"] in deaths:
-            c.report("death:%s" % deaths[s["sc"]]["kind"], "process died signing", {"scenario": s, "death": deaths[s["sc"]]})
+            c.report("death:%s" % deaths[s["sc"]]["kind"], "process died signing", dict({"scenario": s, "death": deaths[s["sc"]]}, **c.rp("p7sign", s, validate=("Pkcs7SignTrace", "Pkcs7SignTrace.cfg"), strip=("sc", "ev"))))
             continue
         evs = [e for e in res.get(s["sc"], []) if e.get("op") == "sign"]
         if not evs:
@@ -62,7 +62,7 @@ def run(c):
             if not c.validate_traces("Pkcs7SignTrace", "Pkcs7SignTrace.cfg", ev2):
                 raise vf.FrameworkError("rejection not reproduced")
         c.report(key, "SignedData produced for %s is not what an RFC 2315 producer emits / not accepted by independent implementations: %s" % (
-            {k: s[k] for k in ("ct", "size", "key", "issuer", "serial")}, why), {"scenario": s, "event": e})
+            {k: s[k] for k in ("ct", "size", "key", "issuer", "serial")}, why), dict({"scenario": s, "event": e}, **c.rp("p7sign", s, validate=("Pkcs7SignTrace", "Pkcs7SignTrace.cfg"), strip=("sc", "ev"))))
     c.cov["evaluations"] = len(scen)
     c.cov["traces_validated_against_impl"] = len(scen)
     c.cov["openssl_cases"] = sum(1 for e in events if e.get("openssl", {}).get("ran"))
